@@ -54,7 +54,7 @@ def check(run, focus=FOCUS, modules=MODULES, suffix=SUFFIX):
         st = statictrans.translate_all()
         statictrans.emit_lean(st, os.path.join(common.GEN, "A64Static.lean"))
         modules.append("DynasmVerif.Generated.A64Static")
-        run.coverage["trusted_base"] += [f"lib/statictrans.py (text of 15 literal-operand arms + static_range_check -> Lean, {len(st)} command groups proved equal to Model/A64Enc)"]
+        run.coverage["trusted_base"] += [f"lib/statictrans.py (text of 17 literal-operand arms + static_range_check -> Lean, {len(st)} command groups proved equal to Model/A64Enc)"]
     except statictrans.Untranslatable as ex:
         static_msg = f"the literal-operand arms of the aarch64 compiler can no longer be translated (lib/statictrans.py): {ex}"
     import rvstatictrans
